@@ -1511,6 +1511,93 @@ bool dispatch_api(State& st, const std::string& op, const json& a, json& ret)
         }
         return true;
     }
+    if (op == "deviate")
+    {
+        // A structural deviation made by another tool: a second connection to one database file enumerates sqlite_master and
+        // applies the pick-th applicable change of the given kind.  {"file": path, "kind": K, "pick": n}; returns the SQL run
+        // (empty when the kind has nothing to act on or SQLite refuses it).
+        HarnessSql guard;
+        sqlite3* c = nullptr;
+        if (sqlite3_open_v2(a.at("file").get<std::string>().c_str(), &c, SQLITE_OPEN_READWRITE, nullptr) != SQLITE_OK)
+        {
+            if (c) sqlite3_close_v2(c);
+            throw harness_error("deviate: cannot open the file");
+        }
+        std::string kind = a.at("kind").get<std::string>();
+        size_t pick = a.value("pick", 0);
+        json done = json::array();
+        try
+        {
+            auto names = [&](const std::string& where) {
+                std::vector<std::string> v;
+                json res = raw_query(c, "SELECT name FROM sqlite_master WHERE " + where + " ORDER BY name");
+                for (auto& r : res["rows"]) v.push_back(js(r[0].at("t")));
+                return v;
+            };
+            auto q = [](const std::string& n) { return "\"" + n + "\""; };
+            auto tables = names("type = 'table' AND name NOT LIKE 'sqlite_%'");
+            auto run = [&](const std::string& sql) {
+                raw_query(c, sql);
+                done.push_back(sql);
+            };
+            auto first_col = [&](const std::string& t, size_t k) {
+                auto rows = raw_query(c, "PRAGMA table_info(" + q(t) + ")")["rows"];
+                return js(rows[k % rows.size()][1].at("t"));
+            };
+            if (kind == "drop_index" || kind == "drop_all_indexes")
+            {
+                std::vector<std::string> with;
+                for (auto& t : tables)
+                    if (!names("type = 'index' AND sql IS NOT NULL AND tbl_name = '" + t + "'").empty()) with.push_back(t);
+                if (!with.empty())
+                {
+                    auto idx = names("type = 'index' AND sql IS NOT NULL AND tbl_name = '" + with[pick % with.size()] + "'");
+                    if (kind == "drop_index")
+                        run("DROP INDEX " + q(idx[pick % idx.size()]));
+                    else
+                        for (auto& i : idx) run("DROP INDEX " + q(i));
+                }
+            }
+            else if (kind == "drop_view" || kind == "drop_trigger")
+            {
+                auto v = names(std::string("type = '") + (kind == "drop_view" ? "view" : "trigger") + "'");
+                if (!v.empty()) run(std::string(kind == "drop_view" ? "DROP VIEW " : "DROP TRIGGER ") + q(v[pick % v.size()]));
+            }
+            else if (kind == "drop_table" && !tables.empty())
+                run("DROP TABLE " + q(tables[pick % tables.size()]));
+            else if (kind == "empty_table" && !tables.empty())
+                run("DELETE FROM " + q(tables[pick % tables.size()]));
+            else if (kind == "add_table")
+                run("CREATE TABLE DeviationExtra (x INTEGER)");
+            else if (kind == "add_view")
+                run("CREATE VIEW DeviationExtraView AS SELECT 1 AS one");
+            else if (kind == "add_index" && !tables.empty())
+                run("CREATE INDEX deviation_extra_idx ON " + q(tables[pick % tables.size()]) + " (" + q(first_col(tables[pick % tables.size()], pick / 7)) + ")");
+            else if (kind == "add_column" && !tables.empty())
+                run("ALTER TABLE " + q(tables[pick % tables.size()]) + " ADD COLUMN deviationExtra INTEGER");
+            else if (kind == "rename_table" && !tables.empty())
+                run("ALTER TABLE " + q(tables[pick % tables.size()]) + " RENAME TO " + q(tables[pick % tables.size()] + "Renamed"));
+            else if (kind == "rename_column" && !tables.empty())
+            {
+                auto t = tables[pick % tables.size()];
+                auto col = first_col(t, pick / 7);
+                run("ALTER TABLE " + q(t) + " RENAME COLUMN " + q(col) + " TO " + q(col + "Renamed"));
+            }
+            else if (kind == "drop_column" && !tables.empty())
+            {
+                auto t = tables[pick % tables.size()];
+                run("ALTER TABLE " + q(t) + " DROP COLUMN " + q(first_col(t, pick / 7)));
+            }
+        }
+        catch (const harness_error& e)
+        {
+            // SQLite refused the change (a view depends on the column, ...): nothing was deviated
+            done.push_back(std::string("refused: ") + e.what());
+        }
+        sqlite3_close_v2(c);
+        ret = done;
+        return true;
+    }
     if (op == "other_writer_exec")
     {
         // Another writer: a separate SQLite connection to one database file of the library, opened, used for the statements
